@@ -39,7 +39,7 @@ def make(env, topo, tag):
     import forsys as fs
     builts, frames = {}, {}
     for t in (0, 1):
-        spec = catalogue(topo, n_spoke=3, n_border=2, rot=0.2 + 0.02 * t)
+        spec = catalogue(topo, n_spoke=4, n_border=2, rot=0.2 + 0.02 * t, bulge=0.12)   # curved interfaces: non-zero pressures
         # frame 1 is frame 0 slightly rotated and shifted, so that every junction has a non-zero velocity
         spec.points = {k: (x + 0.05 * t, y + 0.03 * t) for k, (x, y) in spec.points.items()}
         b = tissue.build(spec, fs)
